@@ -5,4 +5,6 @@ SchedsSmall == <<S(2, 0), S(3, 1)>>            \* co-prime
 SchedsNested == <<S(2, 0), S(4, 2), S(0, 0)>>  \* nested + never firing
 SchedsBig == <<S(2, 0), S(3, 1), S(2, 0)>>     \* co-prime + equal
 SchedsLive == <<S(2, 1), S(3, 0)>>
+(* trace replay: only the number of entry slots matters, the schedules come from the recorded Schedule calls *)
+SchedsTrace == <<S(0, 0), S(0, 0), S(0, 0), S(0, 0), S(0, 0), S(0, 0)>>
 =============================================================================
